@@ -69,6 +69,15 @@ def record(desper, K, seed, n_traces, n_calls):
                 cands += [('CreateEntity', (-1 if auto else rnd.choice(ids), tuple(cs)))] * 3
             if 'add' in acts and free and (enabled or qlen + 2 <= K['MaxQ']):
                 cands += [('AddComponent', (rnd.choice(ids), rnd.choice(free)))] * 4
+            if 'reentrant' in acts and enabled:
+                adders = [c for c in free if 'on_add' in K['Decl'][c]]
+                if adders and 'add' in acts:
+                    cands += [('AddSelfRemoving', (rnd.choice(ids), rnd.choice(adders)))] * 2
+                if adders and 'create' in acts:
+                    c = rnd.choice(adders)
+                    ds = [d for d in free if d != c and K['TypeOf'][d] != K['TypeOf'][c]]
+                    if ds:
+                        cands += [('CreateDisabling', (rnd.choice(ids), c, rnd.choice(ds)))] * 2
             if 'remove' in acts and (enabled or qlen + 1 <= K['MaxQ']):
                 cands += [('RemoveComponent', (rnd.choice(sorted(rows) or ids), rnd.choice(types)))] * 3
             if 'ghost' in acts and rnd.random() < 0.05:
@@ -93,6 +102,7 @@ def record(desper, K, seed, n_traces, n_calls):
                         others = [e for e in rows if attached[victims[0]] != e]
                         if others:
                             cands += [('ProcessKiller', (1, victims[0], rnd.choice(sorted(others))))] * 2
+                            cands += [('ProcessScheduler', (1, victims[0], rnd.choice(sorted(others))))] * 2
             if 'clear' in acts and rnd.random() < 0.1:
                 cands += [('Clear', ())]
             if 'toggle' in acts:
